@@ -283,3 +283,15 @@ M("c04-n3lo-reg-digit", "C04", CFD + "light/n3lo/xc3ns3p.py", "        - 496.95 
 M("c04-adler-nnlo", "C04", CFD + "light/nnlo/xc2ns2p.py", "- 338.531 + 0.537 + nf", "- 338.531 + 0.637 + nf", expect="Adler")
 B("c04-reorder", "C04", NLF + "f2.py", "        + 6 + 4 * z\n", "        + 4 * z + 6\n")
 B("c04-f3-inline", "C04", NLF + "f3.py", "    return f2.ns_reg(z, args) - 2 * CF * (1 + z)", "    shift = 2 * CF * (1 + z)\n    return f2.ns_reg(z, args) - shift")
+
+# ----------------------------------------------------------------------------- C08
+M("c08-delete-asy-nnlo", "C08", CFD + "asy/f2_nc.py", "class AsyNLLGluon(AsyGluon):\n    def NLO(self):\n        def cg_NLL_NLO(z, _args):\n            return raw_nc.c2g1am0_a0(z)\n\n        return RSL(cg_NLL_NLO, args=[self.L])\n\n    def NNLO(self):", "class AsyNLLGluon(AsyGluon):\n    def NLO(self):\n        def cg_NLL_NLO(z, _args):\n            return raw_nc.c2g1am0_a0(z)\n\n        return RSL(cg_NLL_NLO, args=[self.L])\n\n    def NNLO_disabled(self):", expect=None)
+M("c08-rename-asy-class", "C08", CFD + "asy/f2_nc.py", "class AsyNNLLSinglet(AsySinglet):", "class AsyN2LLSinglet(AsySinglet):", expect="C08.support")
+M("c08-asy-ll-only", "C08", CFD + "asy/kernels.py", "                for res in range(pto_evol + 1):\n                    name = \"Asy\" + (\"N\" * res) + \"LL\" + channel", "                for res in range(1):\n                    name = \"Asy\" + (\"N\" * res) + \"LL\" + channel", expect=None)
+M("c08-asy-weights", "C08", CFD + "asy/kernels.py", "        asy_weights = heavy.kernels.nc_weights(\n            esf.info.coupling_constants,\n            esf.Q2,\n            nf,\n            ihq,\n            is_pv,\n        )", "        asy_weights = heavy.kernels.nc_weights(\n            esf.info.coupling_constants,\n            esf.Q2,\n            nf,\n            ihq + 1 if ihq < 6 else ihq,\n            is_pv,\n        )", expect="C08.support")
+M("c08-asy-cc-gluon-dropped", "C08", CFD + "asy/kernels.py", "            kernels.Kernel(wa[\"g\"], asy_cfs.AsyGluon(esf, nf, m2hq=m2hq)),\n", "", expect="C08.support")
+M("c08-asy-intrinsic-missing", "C08", CFD + "__init__.py", "            if \"FFN0\" in self.scheme:\n                heavy_comps[sfh].extend(\n                    asy.kernels.generate_intrinsic_asy(\n                        self.esf, nf, self.esf.info.theory[\"pto_evol\"], ihq=sfh\n                    ),\n                )\n            else:", "            if \"FFN0\" in self.scheme:\n                pass\n            else:", expect="C08.support")
+M("c08-missing-asy-skipped", "C08", CFD + "__init__.py", "                if \"FFN0\" in self.scheme:\n                    comp.extend(\n                        asy.kernels.generate_missing_asy(\n                            self.esf,\n                            nf,\n                            ihq,\n                            self.esf.info.theory[\"pto_evol\"],\n                        )\n                    )\n                else:", "                if \"FFN0\" in self.scheme:\n                    pass\n                else:", expect="C08.support")
+M("c08-asy-extra-singlet-lo", "C08", CFD + "asy/f2_nc.py", "class AsyLLSinglet(AsySinglet):\n    def NNLO(self):", "class AsyLLSinglet(AsySinglet):\n    def NLO(self):\n        def cps_LL_NLO(z, args):\n            return raw_nc.c2g1am0_aq(z) * args[0]\n\n        return RSL(cps_LL_NLO, args=[self.L])\n\n    def NNLO(self):", expect="C08.support")
+B("c08-rename-local", "C08", CFD + "asy/kernels.py", "    asys = []\n    for res in range(pto_evol + 1):\n        name = \"Asy\" + (\"N\" * res) + \"LL\" + \"NonSinglet\"", "    asys = []\n    for res in range(pto_evol + 1):\n        name = \"\".join([\"Asy\", \"N\" * res, \"LL\", \"NonSinglet\"])")
+M("c08-skip-heavylight-revert", "C08", CFD + "asy/kernels.py", "        nf,\n        esf.info.obs_name.is_parity_violating,\n    )\n    if icoupl is not None:\n        weights[\"ns\"] = {k: v for k, v in weights[\"ns\"].items() if abs(k) == icoupl}\n\n    kind = esf.info.obs_name.kind\n    asy_cfs", "        nf,\n        esf.info.obs_name.is_parity_violating,\n        skip_heavylight=True,\n    )\n    if icoupl is not None:\n        weights[\"ns\"] = {k: v for k, v in weights[\"ns\"].items() if abs(k) == icoupl}\n\n    kind = esf.info.obs_name.kind\n    asy_cfs", expect="C08.support")
